@@ -142,12 +142,27 @@ static void component_case(void) {
 	      HAVE_BASE ? "for the same execution recorded without contraction" : "in the execution (the uncontracted run aborted)");
       }
   }
-  /* (4) anything the recorder complained about while dumping */
-  char lg[200];
+  /* (4) anything the recorder complained about while dumping.
+     Expectation corrected: "warning: n_running = 2 > n_workers = 1 (clock skew?)" is NOT reported for the zero-gap
+     timings.  There a worker ends one interval and starts the next at the same clock value; the replay orders events
+     with equal time stamps arbitrarily, may process the start first and then sees W+1 intervals running for a span
+     of zero ticks.  No accumulated figure is affected (the span is 0), and a real time-stamp counter cannot return the
+     same value at two successive instrumentation points of one worker, so this is an artefact of the virtual clock.
+     With gap 1 no worker ever has two intervals touching, and the warning would be reported. */
+  char lg[400];
   if (log_read(lg, sizeof lg)) {
-    for (char * z = lg; *z; z++) { if (*z >= '0' && *z <= '9') *z = '#'; if (*z == ' ') *z = '_'; }
-    snprintf(cls, sizeof cls, "recorder-warning:%.60s", lg);
-    found(cls, NULL, "the recorder printed a complaint while dumping this valid execution: %.150s", lg);
+    int only_ties = CASE.tm.gap == 0;
+    if (only_ties) {
+      char tmp[400]; strcpy(tmp, lg);
+      static const char * const benign[] = { "warning: n_running = ", " > n_workers = ", " (clock skew?)", "note: further occurrences of this warning will be suppressed" };
+      for (unsigned b = 0; b < 4; b++) for (char * q; (q = strstr(tmp, benign[b])); ) memset(q, ' ', strlen(benign[b]));
+      for (char * z = tmp; *z; z++) if (*z != ' ' && !(*z >= '0' && *z <= '9')) only_ties = 0;
+    }
+    if (!only_ties) {
+      for (char * z = lg; *z; z++) { if (*z >= '0' && *z <= '9') *z = '#'; if (*z == ' ') *z = '_'; }
+      snprintf(cls, sizeof cls, "recorder-warning:%.60s", lg);
+      found(cls, NULL, "the recorder printed a complaint while dumping this valid execution: %.150s", lg);
+    }
   }
 }
 
